@@ -33,7 +33,8 @@ fn must_reject(b: &BadOp, mid: bool) -> bool {
         BadOp::OtherTimestamp | BadOp::OtherHash => mid,
         BadOp::ExistingHash | BadOp::InitForeignGenesis => true,
         BadOp::CommitMidBlock | BadOp::ReorgMidBlock => mid,
-        BadOp::BothEncodings | BadOp::NeitherEncoding => true,
+        BadOp::BothEncodings | BadOp::BothEncodingsHexBad | BadOp::BothEncodingsB64Bad | BadOp::NeitherEncoding => true,
+        BadOp::FinaliseExistingHash => !mid,
         // not on the statement's list: judged only by "an error changes nothing"
         BadOp::InitWrongHeight | BadOp::MineMidBlock | BadOp::OddPkscript | BadOp::NonHexPkscript => false,
         BadOp::UndecodableTx | BadOp::WrongChainTx | BadOp::FarFutureTx | BadOp::StaleTx => false,
